@@ -437,6 +437,13 @@ func (r *Run) finish() {
 		r.inconcl = append(r.inconcl, fmt.Sprintf("%d violation(s) did not reproduce from their replay file", nUnstable))
 	}
 
+	var matchedWhat []string
+	for i := range known {
+		if knownSeen[i] {
+			matchedWhat = append(matchedWhat, known[i].What)
+		}
+	}
+	r.extra["known_findings_matched"] = matchedWhat
 	r.writeEvidence(nViol, nKnown)
 
 	for _, l := range lines {
